@@ -45,6 +45,7 @@ def restoreMap (cfg : Cfg) (now : Nat) : List SnapEntry → List (Nat × Entry) 
 def State.restore (cfg : Cfg) (p0 : P) (now : Nat) (sn : Snapshot) : State P :=
   { State.fresh cfg p0 now with
     map := restoreMap cfg now sn.entries [],
+    snap := some sn,
     met := { currentCost := sn.entries.foldl (fun a p => addW a p.cost) 0 } }
 
 end Fv.Cache
